@@ -158,6 +158,8 @@ def havoc_value(eng, v, seen=None):
                 havoc_value(eng, x, seen)
     elif isinstance(v, DictListRef):
         havoc_value(eng, v.d, seen)
+    elif hasattr(v, "__pyvc_havoc__"):  # extension values replace their own contents by unknowns
+        v.__pyvc_havoc__(eng)
     elif type(v).__name__ == "DFrame":  # pandas frame model: every column's contents (row count and column set kept)
         for c in v.cols.values():
             havoc_value(eng, c, seen)
@@ -228,7 +230,8 @@ def havoc_loop_state(eng, nodes, fr, spec, extra_names=()):
         if isinstance(v, (SArr, NArr, PList, PDict, Obj, DictListRef)):
             havoc_value(eng, v, done)
     for extra in (spec or {}).get("modifies", []):
-        v = eng.ev(ast.parse(extra, mode="eval").body, fr)
+        # an expression of the loop's frame, or fn(eng, frame) -> value for state the body reaches only through closures
+        v = extra(eng, fr) if callable(extra) else eng.ev(ast.parse(extra, mode="eval").body, fr)
         havoc_value(eng, v, done)
     for nm in sorted(names):
         f = fr
@@ -242,6 +245,13 @@ def havoc_loop_state(eng, nodes, fr, spec, extra_names=()):
                 continue
             cur = fr.vars[nm]
         k = types.get(nm) if isinstance(types.get(nm), str) else None
+        rb = (spec or {}).get("rebind", {}).get(nm)
+        if rb is not None and not isinstance(cur, (SArr, PList, PDict, NArr)):
+            # a name the loop rebinds to an object / an optional object (`while child is not None: child = ...`): the loop
+            # contract says what it may hold at the loop head
+            if any(isinstance(x, ast.Name) and isinstance(x.ctx, ast.Store) and x.id == nm for x in _walk_no_defs(nodes)):
+                fr.store(nm, rb(eng, cur))
+                continue
         if isinstance(cur, Sym):
             fr.store(nm, fresh(k or cur.kind, nm))
         elif kind_of(cur) is not None:
